@@ -17,6 +17,7 @@ from ..ref import wmm as refwmm
 PROP = "C15"
 LEVEL = "exploration"
 SHARDS = {"quick": 4, "thorough": 16}
+THOROUGH_DEPTH = 20      # thorough tier = this many times the base thorough budget (VERIF_DEPTH overrides)
 ROUTES = ["history/NED", "history/ENU", "constructor-vs-method", "elements", "longitude+-180", "poles", "equator/prime-meridian"]
 REGIONS = {"history": 80, "entry:on-grid": 30, "entry:off-grid": 30, "entry:datetime": 20, "place:special": 40}
 PROBES = [("ahrs.utils.wmm", "WMM.magnetic_field"), ("ahrs.utils.wmm", "WMM.reset_coefficients"), ("ahrs.utils.wmm", "WMM.load_coefficients"),
